@@ -362,18 +362,21 @@ def wire_rate_oracle(ops, out, endpoints=(0, 1)):
             continue
         pts = []   # (now_ms, bytes emitted at this flush, rtt_ms estimate or 0)
         now = 0
+        rtt_cur = 0        # estimate shown by the latest dump
+        rtt_fill = 0       # estimate in force when the latest step() refilled the credit: step() caps the credit with
+                           # the estimate it had on entry and only then folds the new feedback into the estimate
         for (t, info, term) in ev:
             if endpoint_of(t) != e:
                 continue
             st = parse_st(term) if term and term.startswith("st ") else None
+            if t[0] == "step":
+                rtt_fill = rtt_cur
             if st:
                 now = st["now"]
+                rtt_cur = int(st["rttms"]) if st["rttms"] != "-" else 0
             if t[0] == "flush":
                 b = sum(int(l.split()[1]) for l in info if l.startswith("frame "))
-                rtt = 0
-                if st and st["rttms"] != "-":
-                    rtt = int(st["rttms"])
-                pts.append((now, b, rtt))
+                pts.append((now, b, max(rtt_cur, rtt_fill)))
         for i in range(len(pts)):
             acc = 0
             rttmax = 0
@@ -664,6 +667,11 @@ def limits_oracle(ops, out):
                 continue
             tracked = int(m.group(1))
             established = len(re.findall(r"(?:^| )\d+=A", m.group(4)))
+            if t[0] == "srvstep" and int(m.group(2)) > tracked:
+                # step() ends by pruning its list of active connections to those still established, and every
+                # established connection is in the address table: more of the former than of the latter means a
+                # live connection the table (and with it max_total_connections) no longer counts
+                return "server steps %d established connections but tracks only %d addresses (max_total_connections %d)" % (int(m.group(2)), tracked, mt)
             if tracked > mt:
                 return "server tracks %d connections, max_total_connections is %d" % (tracked, mt)
             if established > ma:
@@ -943,20 +951,50 @@ def pending_budget_oracle(ops, out):
     return None
 
 
+def synack_constant_oracle(ops, out):
+    """C07: while an address stays pending (one handshake attempt), every SYN+ACK the server sends to it is the same
+    datagram, byte for byte — the reply is computed once from the connection request and the server's own limits,
+    and retransmitted unchanged."""
+    seen, last = {}, {}
+    for (t, info, term) in ep_events(ops, out):
+        if t[0] == "srvnew":
+            seen, last = {}, {}
+        if t[0] in ("pfwd", "precv"):
+            k = t[1]
+            for l in info:
+                p = l.split()
+                if len(p) > 4 and p[0] == "dgram" and p[1] == "S" and p[4] == "S" and last.get(k, "")[:1] == "P":
+                    ident = (p[2], p[3])
+                    if k in seen and seen[k] != ident:
+                        return "server sent two different SYN+ACK datagrams (%s, then %s) to address %s within one handshake attempt" % (seen[k], ident, k)
+                    seen.setdefault(k, ident)
+        if term and term.startswith("st clients="):
+            cur = _srv_entries(term)
+            for k in set(list(cur) + list(last)):
+                if cur.get(k) != last.get(k):
+                    seen.pop(k, None)
+            last = cur
+    return None
+
+
 def keepalive_oracle(ops, out):
-    """C10 (keepalive clause), on `timers` cases of the idle kind only: keepalive enabled on both ends with an
-    interval of at most 5 s, active timeout 20 s, no application data at all, no datagram dropped after both ends
-    reported Connect, steps at most 3 s apart: then no Error(Timeout) is ever reported, however long the run."""
+    """C10 (keepalive clause), on `timers` cases of the idle kind only: keepalive enabled on at least one end with an
+    interval of at most 5 s (its sync frames are answered, so both ends keep hearing from each other), active
+    timeout 20 s on both ends, no application data at all, no datagram dropped after both ends reported Connect,
+    steps at most 3 s apart: then no Error(Timeout) is ever reported, however long the run."""
     ka_ok = {}
+    ato_ok = {}
     established = set()
     lossless_since = None
     last_now = {}
     for (t, info, term) in ep_events(ops, out):
         if t[0] == "srvnew":
             # srvnew max_total max_active errors msr mrr mps mra keepalive interval active_timeout t0
-            ka_ok["S"] = (t[8] == "1" and int(t[9]) <= 5000 and int(t[10]) == 20000)
+            ka_ok["S"] = (t[8] == "1" and int(t[9]) <= 5000)
+            ato_ok["S"] = int(t[10]) == 20000
         if t[0] == "clinew":
-            ka_ok["C" + t[1]] = (t[7] == "1" and int(t[8]) <= 5000 and int(t[9]) == 20000)
+            ka_ok["C" + t[1]] = (t[7] == "1" and int(t[8]) <= 5000)
+            ato_ok["C" + t[1]] = int(t[9]) == 20000
         if t[0] in ("clisend", "srvsend", "clidisc", "srvdisc", "srvdrop", "psend", "psendraw", "psendfix", "psendc"):
             return None
         if t[0] in ("clistep", "srvstep"):
@@ -972,9 +1010,10 @@ def keepalive_oracle(ops, out):
             if p[:2] == ["ev", "connect"]:
                 established.add(t[0][:3])
             if p[:2] == ["ev", "error"] and len(p) > 3 and p[3] == "timeout" and len(established) >= 2:
-                if ka_ok and all(ka_ok.values()):
-                    return ("%s reported Error(Timeout) on an idle, loss-free connection with keepalive enabled on both ends "
-                            "(interval <= 5 s, active timeout 20 s)" % ("server" if t[0].startswith("srv") else "client"))
+                if ka_ok and any(ka_ok.values()) and ato_ok and all(ato_ok.values()):
+                    return ("%s reported Error(Timeout) on an idle, loss-free connection with keepalive enabled on %s "
+                            "(interval <= 5 s, active timeout 20 s)" % ("server" if t[0].startswith("srv") else "client",
+                                                                        "both ends" if all(ka_ok.values()) else "one end"))
     return None
 
 
